@@ -4,6 +4,7 @@
 package grpcmux
 
 import (
+	"github.com/hashicorp/go-plugin/internal/verifhook"
 	"io"
 	"net"
 
@@ -31,6 +32,7 @@ func newBlockedClientListener(session *yamux.Session, doneCh <-chan struct{}) *b
 func (b *blockedClientListener) Accept() (net.Conn, error) {
 	select {
 	case <-b.waitCh:
+		verifhook.Point("grpcmux.client.unblocked", 0)
 		return b.session.Accept()
 	case <-b.doneCh:
 		return nil, io.EOF
